@@ -9,7 +9,10 @@ import (
 	"encoding/json"
 	"fmt"
 	"os"
+	"runtime"
 	"sort"
+	"syscall"
+	"unsafe"
 
 	seccomp "github.com/elastic/go-seccomp-bpf"
 	"github.com/elastic/go-seccomp-bpf/arch"
@@ -18,7 +21,99 @@ import (
 	"verif/harness/internal/spec"
 )
 
+// installOuter puts the whole process under a filter of the kind an enclosing sandbox or an old kernel presents:
+// seccomp(2) and/or prctl(2) fail. What the library compiles must not depend on that.
+func installOuter(kind string) error {
+	secNr, prctlNr := uint32(317), uint32(157)
+	if runtime.GOARCH == "386" {
+		secNr, prctlNr = 354, 172
+	}
+	var nr, ret uint32
+	switch kind {
+	case "seccomp-eperm":
+		nr, ret = secNr, 0x00050000|1
+	case "seccomp-enosys":
+		nr, ret = secNr, 0x00050000|38
+	case "prctl-eperm":
+		nr, ret = prctlNr, 0x00050000|1
+	default:
+		return fmt.Errorf("unknown outer filter %q", kind)
+	}
+	prog := []syscall.SockFilter{
+		{Code: 0x20, K: 0},
+		{Code: 0x15, Jt: 0, Jf: 1, K: nr},
+		{Code: 0x06, K: ret},
+		{Code: 0x06, K: 0x7fff0000},
+	}
+	fp := syscall.SockFprog{Len: uint16(len(prog)), Filter: &prog[0]}
+	runtime.LockOSThread()
+	defer runtime.UnlockOSThread()
+	if _, _, e := syscall.RawSyscall6(syscall.SYS_PRCTL, 38, 1, 0, 0, 0, 0); e != 0 {
+		return e
+	}
+	if r, _, e := syscall.RawSyscall(uintptr(secNr), 1, 1, uintptr(unsafe.Pointer(&fp))); e != 0 || r != 0 {
+		return fmt.Errorf("seccomp: ret %d errno %v", r, e)
+	}
+	return nil
+}
+
+// programsMode prints one JSON line per policy of the corpus: the compiled program or the error.
+func programsMode(path string) {
+	b, err := os.ReadFile(path)
+	if err != nil {
+		fmt.Println("error:", err)
+		os.Exit(2)
+	}
+	var corpus []spec.Policy
+	if err := json.Unmarshal(b, &corpus); err != nil {
+		fmt.Println("error:", err)
+		os.Exit(2)
+	}
+	enc := json.NewEncoder(os.Stdout)
+	for i, p := range corpus {
+		type line struct {
+			I     int         `json:"i"`
+			Err   string      `json:"err,omitempty"`
+			Panic string      `json:"panic,omitempty"`
+			Prog  [][4]uint32 `json:"prog,omitempty"`
+		}
+		l := line{I: i}
+		func() {
+			defer func() {
+				if x := recover(); x != nil {
+					l.Panic = fmt.Sprint(x)
+				}
+			}()
+			insts, err := p.ToSeccomp().Assemble()
+			if err != nil {
+				l.Err = err.Error()
+				return
+			}
+			raw, err := bpf.Assemble(insts)
+			if err != nil {
+				l.Err = "unencodable: " + err.Error()
+				return
+			}
+			for _, r := range raw {
+				l.Prog = append(l.Prog, [4]uint32{uint32(r.Op), uint32(r.Jt), uint32(r.Jf), r.K})
+			}
+		}()
+		enc.Encode(l)
+	}
+	fmt.Println(`{"done":true}`)
+}
+
 func main() {
+	if k := os.Getenv("DIGEST_OUTER"); k != "" {
+		if err := installOuter(k); err != nil {
+			fmt.Println("error: outer filter:", err)
+			os.Exit(3)
+		}
+	}
+	if len(os.Args) > 2 && os.Args[1] == "-programs" {
+		programsMode(os.Args[2])
+		return
+	}
 	// programs
 	h := sha256.New()
 	compiled, rejected := 0, 0
@@ -72,7 +167,8 @@ func main() {
 
 	// lookups
 	h = sha256.New()
-	for _, name := range []string{"arm", "i386", "386", "x32", "x86_64", "amd64", "aarch64", "arm64", "ARM64", "X86_64", "ppc64", "mips", ""} {
+	// (the empty name means the build's own architecture and is printed separately)
+	for _, name := range []string{"arm", "i386", "386", "x32", "X32", "x86_64", "amd64", "AMD64", "aarch64", "arm64", "ARM64", "X86_64", "I386", "Arm", "ppc64", "mips", "s390x", "riscv64"} {
 		info, err := arch.GetInfo(name)
 		if err != nil {
 			fmt.Fprintf(h, "%s:unsupported;", name)
@@ -97,4 +193,9 @@ func main() {
 		}
 	}
 	fmt.Printf("lookups=%x\n", h.Sum(nil))
+	if info, err := arch.GetInfo(""); err == nil {
+		fmt.Printf("native=%s\n", info.Name)
+	} else {
+		fmt.Printf("native=unsupported\n")
+	}
 }
